@@ -174,23 +174,37 @@ func unexpectedCause(s *MSess, topic string, accepted bool) string {
 	if s == nil {
 		return "session-unknown-to-model"
 	}
+	// Deterministic: candidate causes are collected over all subscriptions (a map) and the first of a fixed
+	// priority list is reported. A subscription is blamed only if it would match once the rule in question
+	// is ignored.
 	dollar := strings.HasPrefix(topic, "$")
+	laxMatch := func(filter string) bool { // matching without the "$ topics and leading wildcards" rule
+		if dollar {
+			return refmatch.Match(filter, "x"+topic[1:]) || refmatch.Match(filter, topic)
+		}
+		return refmatch.Match(filter, topic)
+	}
+	found := map[string]bool{}
 	for _, sub := range s.Subs {
 		f := sub.Filter
-		up := strings.ToUpper(f)
-		if strings.HasPrefix(up, "$SHARE/") && !strings.HasPrefix(f, "$share/") {
-			return "share-prefix-not-lower-case"
+		if len(f) > 7 && strings.EqualFold(f[:7], "$share/") && !strings.HasPrefix(f, "$share/") {
+			if _, inner, sh := refmatch.SplitShare("$share/" + f[7:]); sh && laxMatch(inner) {
+				found["share-prefix-not-lower-case"] = true
+			}
+			continue
 		}
 		_, inner, sh := refmatch.SplitShare(f)
-		lead := f
-		if sh {
-			lead = inner
-		}
-		if dollar && (strings.HasPrefix(lead, "+") || strings.HasPrefix(lead, "#")) {
+		if dollar && (strings.HasPrefix(inner, "+") || strings.HasPrefix(inner, "#")) && laxMatch(inner) {
 			if sh {
-				return "shared-leading-wildcard-matches-dollar-topic"
+				found["shared-leading-wildcard-matches-dollar-topic"] = true
+			} else {
+				found["leading-wildcard-matches-dollar-topic"] = true
 			}
-			return "leading-wildcard-matches-dollar-topic"
+		}
+	}
+	for _, c := range []string{"leading-wildcard-matches-dollar-topic", "shared-leading-wildcard-matches-dollar-topic", "share-prefix-not-lower-case"} {
+		if found[c] {
+			return c
 		}
 	}
 	if len(s.Subs) == 0 {
